@@ -353,4 +353,41 @@ def holdsAccepted (sender : Nat) (pks : List (Nat × Nat)) (prev : Nat)
   | some pt, some pk => pt == accepted && g1OfExp (pk * prev) == accepted
   | _, _ => false
 
+
+/-! ## The relay entry message loop (`SignAndSubmit`) on a scripted history -/
+
+/-- secret key share of member `i` for the generator's polynomial. -/
+def skOf (coefs : List Nat) (i : Nat) : Nat := (evalPoly coefs (i : Int)).toNat
+
+/-- Outcome of `SignAndSubmit` for member `self` of a group of `n` with key shares `f(i)`, given
+    the messages `(sender, share bytes)` that the other members (re)send until it returns:
+    the member collects its own share and every share that validates; with at least `thr`
+    senders it completes the signature (`notEnough` = relay entry timeout).  Which `thr` of the
+    validated shares are used depends on arrival order and Go map iteration; the model takes the
+    lowest member indices (`recover_unique`: the result does not depend on the choice). -/
+def entryModel (self n : Nat) (thr : Int) (coefs : List Nat) (prev : Nat)
+    (msgs : List (Nat × Option (Nat × Nat))) : Out :=
+  let pks := (List.range n).map fun i => (i + 1, skOf coefs (i + 1))
+  let validSenders := ((List.range n).map (· + 1)).filter fun s =>
+    s == self || msgs.any fun mb =>
+      mb.1 == s && (match validateShare s pks prev mb.2 with | .accepted _ _ => true | _ => false)
+  if (validSenders.length : Int) < thr then .notEnough
+  else recoverSig thr
+    (validSenders.map fun (s : Nat) => Entry.share (Int.ofNat s) ((skOf coefs s * prev) % R))
+
+/-- monitor for one `RecoverPublicKey` step: correct shares at distinct indices must give the
+    group public key `a0 • G2`. `obs = none`: error return. -/
+def holdsPk (thr : Int) (es : List Entry) (coefs : List Nat) (obs : Option (Fp2 × Fp2)) : Bool :=
+  let valid := es.filterMap Entry.valid?
+  if thr < 1 then true
+  else if (valid.length : Int) < thr then obs.isNone
+  else
+    let used := valid.take thr.toNat
+    if nodupInts (used.map (·.1)) && used.all (fun s => decide (s.1 < (R : Int)))
+        && used.all (correctShare coefs 1) && decide ((coefs.length : Int) ≤ thr) then
+      match obs with
+      | some pt => pt == g2OfExp (coefs.headD 0)
+      | none => false
+    else true
+
 end KeepVerif.C03
